@@ -81,6 +81,21 @@ def _task(task):
                 c[u, v] = [conv(qt, u, v, x) for x in V]
                 part.count("evaluations", len(V))
         max_off = max(abs(o) for _s, o in lin.values())
+        # the same conversions asked with the units in list form with exponent 1 ([(u, 1)] -> [(v, 1)]): the same
+        # numbers (units with an offset, where a detour through magnitudes and signs would show; every value)
+        for u in units:
+            for v in units:
+                if u != v and (lin[u][1] != 0 or lin[v][1] != 0):
+                    for x, r in zip(V, c[u, v]):
+                        part.count("evaluations")
+                        try:
+                            g = conv(qt, [(u, 1)], [(v, 1)], x)
+                        except Exception as e:
+                            g = repr(e)
+                        if not (g == r or (g != g and r != r)):
+                            part.violation("C01:list-form-exponent-1:%s:%s:%s->%s" % (world, qt, u, v), {"x": x, "list_form": g, "plain": r},
+                                           _snip(world, "a = db.Convert(%r, [(%r, 1)], [(%r, 1)], %r)\nb = db.Convert(%r, %r, %r, %r)\nprint(a, b)\nassert a == b" % (qt, u, v, x, qt, u, v, x)))
+                            break
         for u in units:
             su, ou = lin[u]
             # identity path
